@@ -87,171 +87,638 @@ class ShapeFault(Exception):
         self.what, self.node = what, node
 
 
-def _is_sym(v) -> bool:
-    return isinstance(v, sp.Basic)
+class T:
+    """a term of the instance family in rational normal form:  p / prod(key**e)  with p a sparse polynomial over QQ in the base
+    symbols and the norm symbols (degree <= 1 in every norm symbol), keys primitive polynomials with positive value at the placements
+    are NOT required - only that they do not vanish there"""
+    __slots__ = ("fam", "p", "den", "_h", "_ls")
+
+    def __init__(self, fam, p, den=None, ls=None):
+        self.fam, self.p = fam, p
+        self.den = den if (den and p != 0) else {}
+        self._h = None
+        self._ls = ls      # superset of the norm symbols occurring in p (None: not yet scanned)
+
+    @property
+    def ls(self):
+        if self._ls is None:
+            self._ls = self.fam.lset(self.p)
+        return self._ls
+
+    def simplify(self):
+        """cancel denominator keys that divide the numerator (a norm symbol L in the denominator against its radicand in the numerator)"""
+        if not self.den or self.p.is_ground:
+            return self
+        fam = self.fam
+        p, den, changed = self.p, dict(self.den), False
+        for k in list(den):
+            i = fam.norm_index(k)
+            while den.get(k, 0) > 0:
+                if i is not None:
+                    q = fam.try_div(p, k)
+                    if q is not None:
+                        p = q
+                    else:
+                        q = fam.try_div(p, fam.rad[i])
+                        if q is None:
+                            break
+                        p = q * fam.gens[i]
+                else:
+                    q = fam.try_div(p, k)
+                    if q is None:
+                        break
+                    p = q
+                changed = True
+                den[k] -= 1
+                if not den[k]:
+                    del den[k]
+        if not changed:
+            return self
+        return T(fam, fam.reduce_p(p), den)
+
+    # -- coercion ----------------------------------------------------------------------------------
+    def _co(self, o):
+        if isinstance(o, T):
+            if o.fam is not self.fam:
+                raise Undecided("C19: terms of two instance families combined")
+            return o
+        return self.fam.const(o)
+
+    def __hash__(self):
+        if self._h is None:
+            self._h = hash((self.p, frozenset(self.den.items())))
+        return self._h
+
+    def __eq__(self, o):
+        try:
+            o = self._co(o)
+        except (Undecided, TypeError):
+            return NotImplemented
+        return (self - o).p == 0
+
+    def __ne__(self, o):
+        r = self.__eq__(o)
+        return r if r is NotImplemented else not r
+
+    def __bool__(self):
+        return self.p != 0
+
+    @property
+    def is_number(self):
+        return not self.den and self.p.is_ground
+
+    def number(self):
+        c = self.p.LC if self.p != 0 else 0
+        return sp.Rational(int(c.numerator), int(c.denominator)) if self.p != 0 else sp.Integer(0)
+
+    def __repr__(self):
+        s = str(self.p.as_expr())
+        if self.den:
+            s = f"({s})/(" + "*".join(f"({k.as_expr()})**{e}" for k, e in self.den.items()) + ")"
+        return s if len(s) < 300 else s[:300] + "..."
+
+    # -- arithmetic --------------------------------------------------------------------------------
+    def __neg__(self):
+        return T(self.fam, -self.p, self.den)
+
+    def __pos__(self):
+        return self
+
+    def __add__(self, o):
+        try:
+            o = self._co(o)
+        except TypeError:
+            return NotImplemented
+        if self.den == o.den:
+            return T(self.fam, self.p + o.p, self.den, self.ls | o.ls)
+        if o.p == 0:
+            return self
+        if self.p == 0:
+            return o
+        D = dict(self.den)
+        for k, e in o.den.items():
+            if D.get(k, 0) < e:
+                D[k] = e
+        fam = self.fam
+
+        def lift(t):
+            p, ls = t.p, t.ls
+            for k, e in D.items():
+                m = e - t.den.get(k, 0)
+                if m:
+                    kl = fam.lset(k)
+                    p = fam.mul(p, k ** m, ls & kl if m == 1 else kl)
+                    ls = ls | kl
+            return p, ls
+        (pa, la), (pb, lb) = lift(self), lift(o)
+        return T(fam, pa + pb, D, la | lb)
+
+    __radd__ = __add__
+
+    def __sub__(self, o):
+        try:
+            o = self._co(o)
+        except TypeError:
+            return NotImplemented
+        return self + (-o)
+
+    def __rsub__(self, o):
+        return (-self) + o
+
+    def __mul__(self, o):
+        try:
+            o = self._co(o)
+        except TypeError:
+            return NotImplemented
+        if self.p == 0 or o.p == 0:
+            return self.fam.zero
+        fam = self.fam
+        if not self.den and not o.den:
+            return T(fam, fam.mul(self.p, o.p, self.ls & o.ls), None, self.ls | o.ls)
+        # cancel a numerator that is (a constant multiple of) a denominator key of the other factor
+        a, b = self, o
+        for x, y in ((a, b), (b, a)):
+            if y.den and not x.p.is_ground:
+                c, prim = fam.primitive(x.p)
+                e = y.den.get(prim)
+                if e:
+                    D = dict(y.den)
+                    if e == 1:
+                        del D[prim]
+                    else:
+                        D[prim] = e - 1
+                    return T(fam, x.p.ring(c), x.den) * T(fam, y.p, D)
+        D = dict(a.den)
+        for k, e in b.den.items():
+            D[k] = D.get(k, 0) + e
+        return T(fam, fam.mul(a.p, b.p, a.ls & b.ls), D, a.ls | b.ls)
+
+    __rmul__ = __mul__
+
+    def inv(self):
+        fam = self.fam
+        if self.p == 0:
+            raise ZeroDivisionError("division by the zero term")
+        num = fam.one_p
+        for k, e in self.den.items():
+            num = fam.mul(num, k ** e, fam.lset(k))
+        if self.p.is_ground:
+            return T(fam, num / self.p.LC)
+        c, keys = fam.split_keys(self.p)
+        return T(fam, num / c, dict(keys))
+
+    def __truediv__(self, o):
+        try:
+            o = self._co(o)
+        except TypeError:
+            return NotImplemented
+        if o.p == 0:
+            raise ZeroDivisionError("division by the zero term")
+        if not o.den and o.p.is_ground:
+            return T(self.fam, self.p / o.p.LC, self.den)
+        # multiply by the denominator keys of o one by one (cancelling against own keys), then divide by its numerator
+        res = self
+        for k, e in o.den.items():
+            for _ in range(e):
+                res = res * T(self.fam, k)
+        if o.p.is_ground:
+            return T(self.fam, res.p / o.p.LC, res.den)
+        c, keys = self.fam.split_keys(o.p)
+        D = dict(res.den)
+        for k, e in keys:
+            D[k] = D.get(k, 0) + e
+        return T(self.fam, res.p / c, D).simplify()
+
+    def __rtruediv__(self, o):
+        return self._co(o) * self.inv()
+
+    def __pow__(self, n):
+        if isinstance(n, T) and n.is_number:
+            n = n.number()
+        if isinstance(n, (sp.Rational, sp.Float)) and not isinstance(n, sp.Integer):
+            n = sp.nsimplify(n, rational=True)
+            if n == sp.Rational(1, 2):
+                return self.fam.sqrt(self)
+            if n == sp.Rational(-1, 2):
+                return self.fam.sqrt(self).inv()
+            raise Undecided(f"C19: power with exponent {n}")
+        n = int(n)
+        if n == 0:
+            return self.fam.one
+        base = self if n > 0 else self.inv()
+        res = base
+        for _ in range(abs(n) - 1):
+            res = res * base
+        return res
+
+    def __rpow__(self, o):
+        raise Undecided("C19: symbolic exponent")
+
+    def __abs__(self):
+        return self * self.fam.sign(self, "abs")
+
+
+NPOOL = 24
 
 
 class Fam:
-    """symbols of an instance family + exact placements used for data-dependent decisions and as refutation witnesses"""
+    """symbols of an instance family, a sparse polynomial ring over them plus a pool of norm symbols, and exact placements used for
+    data-dependent decisions and as refutation witnesses"""
 
     def __init__(self, name: str, symbols: list, placements: list[dict]):
+        from sympy.polys.rings import ring
+        from sympy.polys.domains import QQ
         self.name = name
         self.symbols = list(symbols)
         self.place = [dict(p) for p in placements]
-        self.norms: dict = {}          # expanded radicand -> norm symbol
-        self.rad: dict = {}            # norm symbol -> radicand
-        self._fplace = [{s: sp.Float(sp.Rational(v), 40) for s, v in p.items()} for p in self.place]
+        self.nb = len(self.symbols)
+        names = list(self.symbols) + [sp.Symbol(f"L{k}", positive=True) for k in range(NPOOL)]
+        self.ring, *gens = ring(names, QQ)
+        self.gens = gens
+        self.rad: dict[int, object] = {}       # generator index of a norm symbol -> radicand polynomial
+        self.norm_of: dict = {}                # radicand polynomial -> generator index
+        self.fvals = [[float(sp.Rational(p[s])) for s in self.symbols] + [float("nan")] * NPOOL for p in self.place]
+        self.one_p = self.ring(1)
+        self.zero = T(self, self.ring(0))
+        self.one = T(self, self.ring(1))
+        self._mono: dict = {}
         self._sqrt_cache: dict = {}
-        self._num_cache: dict = {}
+        self._sym = {s: T(self, g) for s, g in zip(self.symbols, gens)}
 
-    # ---- numeric values at the placements ---------------------------------------------------------
-    def nums(self, e) -> list[float]:
+    # ---- construction -----------------------------------------------------------------------------
+    def const(self, v):
+        if isinstance(v, T):
+            return v
+        if isinstance(v, (bool, np.bool_)):
+            v = int(v)
+        if isinstance(v, (int, np.integer)):
+            return T(self, self.ring(int(v)))
+        if isinstance(v, (float, np.floating)):
+            v = sp.nsimplify(float(v), rational=True)
+        if isinstance(v, sp.Rational):
+            from sympy.polys.domains import QQ
+            return T(self, self.ring(QQ(int(v.p), int(v.q))))
+        if isinstance(v, sp.Basic):
+            return self.from_expr(v)
+        raise TypeError(f"not a term: {type(v).__name__}")
+
+    def from_expr(self, e):
         e = sp.sympify(e)
-        if e.is_number:
-            return [float(e)] * len(self.place)
-        key = e
-        hit = self._num_cache.get(key)
-        if hit is not None:
-            return hit
+        if e.is_Rational:
+            return self.const(sp.Rational(e))
+        extra = e.free_symbols - set(self.symbols)
+        if extra:
+            raise Undecided(f"C19 [{self.name}]: symbols {sorted(map(str, extra))} are not part of the instance family")
+        n, d = sp.fraction(sp.together(e))
+        try:
+            tn = T(self, self.ring.from_expr(sp.expand(n)))
+            td = T(self, self.ring.from_expr(sp.expand(d)))
+        except Exception as err:   # sqrt / functions in an input expression
+            raise Undecided(f"C19 [{self.name}]: cannot convert `{str(e)[:60]}` to a polynomial term ({type(err).__name__})")
+        return tn / td
+
+    def to_expr(self, t):
+        t = self.const(t)
+        e = t.p.as_expr()
+        for k, m in t.den.items():
+            e = e / k.as_expr() ** m
+        return e
+
+    # ---- polynomial helpers -------------------------------------------------------------------------
+    def primitive(self, p):
+        """(c, prim) with p == c * prim, prim with coprime integer coefficients and a positive leading coefficient"""
+        c, prim = p.primitive()
+        if prim.LC < 0:
+            c, prim = -c, -prim
+        return c, prim
+
+    def split_keys(self, p):
+        """(c, [(key, e)]) with p == c * prod(key**e): the generators common to all terms are split off as keys of their own"""
+        c, prim = self.primitive(p)
+        keys = []
+        if len(prim) > 0:
+            mins = list(next(iter(prim.keys())))
+            for m in prim.keys():
+                for i, e in enumerate(m):
+                    if e < mins[i]:
+                        mins[i] = e
+            if any(mins):
+                for i, e in enumerate(mins):
+                    if e:
+                        keys.append((self.gens[i], e))
+                mono = tuple(mins)
+                prim = prim.ring.from_terms([(tuple(x - y for x, y in zip(m, mono)), co) for m, co in prim.terms()])
+        if not prim.is_ground:
+            keys.append((prim, 1))
+        elif prim.LC != 1:
+            c = c * prim.LC
+        return c, keys
+
+    def try_div(self, p, d):
+        """p / d if the division is exact, else None"""
+        if len(d) == 1:
+            (m, c), = d.terms()
+            if all(all(x >= y for x, y in zip(mp, m)) for mp in p.keys()):
+                return p.ring.from_terms([(tuple(x - y for x, y in zip(mp, m)), cp / c) for mp, cp in p.terms()])
+            return None
+        if len(p) < len(d):
+            return None
+        # necessary condition: divisibility at the first placement (cheap) before the polynomial division
+        v, sc = self.pval(d, 0)
+        if abs(v) > 1e-10 * sc and not any(i in self.rad for i in range(self.nb, self.ring.ngens) if any(m[i] for m in d.keys())):
+            pass
+        q, r = p.div(d)
+        return q if r == 0 else None
+
+    def lset(self, p) -> frozenset:
+        """norm symbols occurring in a polynomial"""
+        nb = self.nb
+        if not self.rad or p.is_ground:
+            return frozenset()
+        hi = nb + len(self.rad)
+        found = set()
+        for m in p.keys():
+            for i in range(nb, hi):
+                if m[i]:
+                    found.add(i)
+        return frozenset(found)
+
+    def norm_index(self, key):
+        """generator index if the polynomial is a bare norm symbol"""
+        if len(key) != 1:
+            return None
+        (m, c), = key.terms()
+        if c != 1 or sum(m) != 1:
+            return None
+        i = m.index(1)
+        return i if i in self.rad else None
+
+    def mul(self, p, q, common=None):
+        r = p * q
+        if self.rad and (common is None or common):
+            r = self.reduce_p(r, common)
+        return r
+
+    def reduce_p(self, p, only=None):
+        """even powers of the norm symbols replaced by their radicands"""
+        cand = sorted(self.rad if only is None else only)
+        for _ in range(16):
+            hot = None
+            for m in p.keys():
+                for i in cand:
+                    if m[i] >= 2:
+                        hot = i
+                        break
+                if hot is not None:
+                    break
+            if hot is None:
+                return p
+            i = hot
+            R_, L = self.rad[i], self.gens[i]
+            parts: dict[int, object] = {}
+            for m, c in p.terms():
+                e = m[i]
+                m0 = m[:i] + (0,) + m[i + 1:]
+                parts.setdefault(e, self.ring.zero)
+                parts[e] = parts[e] + self.ring.term_new(m0, c)
+            acc = self.ring.zero
+            for e, part in parts.items():
+                f = part
+                if e // 2:
+                    f = f * R_ ** (e // 2)
+                if e % 2:
+                    f = f * L
+                acc = acc + f
+            p = acc
+        return p
+
+    def _terms(self, p):
         out = []
-        for m in self._fplace:
-            v = e.xreplace(m)
-            if not v.is_number:
-                raise Undecided(f"C19 [{self.name}]: free symbols {sorted(map(str, v.free_symbols))[:4]} not in the instance family")
-            if v.is_real is False or v.has(sp.nan, sp.zoo, sp.oo):
-                raise Undecided(f"C19 [{self.name}]: term is not a finite real number at a placement: {str(e)[:80]}")
-            out.append(float(v))
-        self._num_cache[key] = out
+        for m, c in p.terms():
+            mm = self._mono.get(m)
+            if mm is None:
+                mm = tuple((i, e) for i, e in enumerate(m) if e)
+                self._mono[m] = mm
+            out.append((mm, float(c)))
         return out
 
-    def sign(self, e, what: str = "") -> int:
+    def pval(self, p, k: int):
+        """(value, sum of absolute values of the terms) of a polynomial at placement k, in floating point"""
+        vals = self.fvals[k]
+        s = sc = 0.0
+        for mm, c in self._terms(p):
+            t = c
+            for i, e in mm:
+                t *= vals[i] ** e
+            s += t
+            sc += abs(t)
+        return s, sc
+
+    # ---- numeric values at the placements ---------------------------------------------------------
+    def nums(self, t) -> list[float]:
+        t = self.const(t)
+        out = []
+        for k in range(len(self.place)):
+            v, sc = self.pval(t.p, k)
+            if abs(v) <= 1e-10 * sc:
+                v = 0.0
+            for key, e in t.den.items():
+                d, dsc = self.pval(key, k)
+                if abs(d) <= 1e-10 * dsc:
+                    raise Undecided(f"C19 [{self.name}]: a denominator vanishes at a placement")
+                v /= d ** e
+            out.append(v)
+        return out
+
+    def tidy(self, v):
+        """cancel common factors in the entries of a value that is about to be bound to a name / attribute"""
+        if isinstance(v, T):
+            return v.simplify() if v.den else v
+        if isinstance(v, np.ndarray) and v.dtype == object and not isinstance(v, Mat):
+            for ix in np.ndindex(*v.shape):
+                x = v[ix]
+                if isinstance(x, T) and x.den:
+                    y = x.simplify()
+                    if y is not x:
+                        v[ix] = y
+        return v
+
+    def sign(self, t, what: str = "") -> int:
         """sign of a term, identical at every placement (else Undecided); 0 only for the zero term"""
-        e = sp.sympify(e)
-        if e.is_number:
-            return int(sp.sign(e))
-        vals = self.nums(e)
-        scale = max(1.0, max(abs(v) for v in vals))
-        sg = {(0 if abs(v) <= 1e-12 * scale else (1 if v > 0 else -1)) for v in vals}
+        if isinstance(t, (int, np.integer)):
+            return (t > 0) - (t < 0)
+        if isinstance(t, sp.Basic) and t.is_number:
+            return int(sp.sign(t))
+        t = self.const(t)
+        if t.p == 0:
+            return 0
+        vals = self.nums(t)
+        sg = {(0 if v == 0.0 else (1 if v > 0 else -1)) for v in vals}
         if len(sg) != 1:
-            raise Undecided(f"C19 [{self.name}]: a data-dependent decision ({what or str(e)[:60]}) falls differently on the placements")
+            raise Undecided(f"C19 [{self.name}]: a data-dependent decision ({what or repr(t)[:60]}) falls differently on the placements")
         s = sg.pop()
         if s == 0:
-            if self.iszero(e) is True:
-                return 0
-            raise Undecided(f"C19 [{self.name}]: cannot decide the sign of a term that vanishes at every placement ({what or str(e)[:60]})")
+            raise Undecided(f"C19 [{self.name}]: cannot decide the sign of a non-zero term that vanishes at every placement ({what or repr(t)[:60]})")
         return s
 
-    # ---- norm symbols ----------------------------------------------------------------------------------
-    def _norm_symbol(self, rad):
-        rad = sp.expand(rad)
-        s = self.norms.get(rad)
-        if s is None:
-            s = sp.Symbol(f"L{len(self.norms)}_{self.name}", positive=True)
-            self.norms[rad] = s
-            self.rad[s] = rad
-            for m, p in zip(self._fplace, self.place):
-                v = rad.xreplace(m)
-                if not v.is_number or float(v) <= 0:
-                    raise Undecided(f"C19 [{self.name}]: radicand not positive at a placement: {str(rad)[:80]}")
-                m[s] = sp.sqrt(v)
-            self._num_cache.clear()
-        return s
-
-    def reduce(self, e):
-        """expanded numerator of e with even powers of the norm symbols replaced by their radicands"""
-        e = sp.sympify(e)
-        num = sp.expand(sp.fraction(sp.together(e))[0])
-        for _ in range(6):
-            Ls = [s for s in num.free_symbols if s in self.rad]
-            if not Ls:
-                break
-            changed = False
-            for L in Ls:
-                p = sp.Poly(num, L)
-                if p.degree() < 2:
-                    continue
-                changed = True
-                acc = 0
-                for (k,), c in p.terms():
-                    acc += c * self.rad[L] ** (k // 2) * L ** (k % 2)
-                num = sp.expand(acc)
-            if not changed:
-                break
-        return num
-
-    def iszero(self, e):
+    def iszero(self, t):
         """True: identically zero (proved); False: non-zero at a placement (refuted); Undecided otherwise"""
-        e = sp.sympify(e)
-        if e == 0:
+        if isinstance(t, (int, np.integer)):
+            return t == 0
+        t = self.const(t)
+        if t.p == 0:
             return True
-        r = self.reduce(e)
-        if r == 0:
-            return True
-        vals = self.nums(e)
-        if any(abs(v) > 1e-9 * max(1.0, self._magnitude(e, k)) for k, v in enumerate(vals)):
+        if any(v != 0.0 for v in self.nums(t)):
             return False
-        raise Undecided(f"C19 [{self.name}]: a residual vanishes at every placement but not as a reduced polynomial: {str(r)[:100]}")
+        raise Undecided(f"C19 [{self.name}]: a residual vanishes at every placement but not as a reduced polynomial: {repr(t)[:100]}")
 
-    def _magnitude(self, e, k: int) -> float:
-        """size of the largest additive term of e at placement k (scale for the numeric refutation)"""
-        terms = sp.Add.make_args(sp.expand(e)) if len(str(e)) < 4000 else sp.Add.make_args(e)
-        m = self._fplace[k]
-        mx = 0.0
-        for t in terms[:200]:
-            try:
-                mx = max(mx, abs(float(t.xreplace(m))))
-            except (TypeError, ValueError):
-                pass
-        return mx
-
-    def witness(self, e) -> dict:
-        vals = self.nums(e)
+    def witness(self, t) -> dict:
+        vals = self.nums(t)
         k = max(range(len(vals)), key=lambda i: abs(vals[i]))
         return {"placement": {str(s): str(v) for s, v in self.place[k].items()}, "residual": vals[k]}
 
-    def sqrt(self, e):
-        e = sp.sympify(e)
-        if e.is_number:
-            if e.is_negative:
-                raise Undecided(f"C19 [{self.name}]: square root of a negative number")
-            return sp.sqrt(e)
-        hit = self._sqrt_cache.get(e)
+    # ---- square roots -------------------------------------------------------------------------------
+    def _norm_symbol(self, rad):
+        """norm symbol (as polynomial) of a square-free primitive radicand that is positive at the placements"""
+        i = self.norm_of.get(rad)
+        if i is None:
+            i = self.nb + len(self.norm_of)
+            if i >= self.nb + NPOOL:
+                raise Undecided(f"C19 [{self.name}]: more than {NPOOL} distinct square roots")
+            for k in range(len(self.place)):
+                v, sc = self.pval(rad, k)
+                if v <= 1e-10 * sc:
+                    raise Undecided(f"C19 [{self.name}]: radicand not positive at a placement")
+                self.fvals[k][i] = v ** 0.5
+            self.norm_of[rad] = i
+            self.rad[i] = rad
+        return self.gens[i]
+
+    def sqrt(self, t):
+        if isinstance(t, sp.Basic) and t.is_number and not isinstance(t, T):
+            t = sp.nsimplify(t, rational=True)
+        t = self.const(t)
+        if t.p == 0:
+            return self.zero
+        hit = self._sqrt_cache.get(t)
         if hit is not None:
             return hit
-        n, d = sp.fraction(sp.together(e))
-        res = self._sqrt_poly(self.reduce(n)) / self._sqrt_poly(self.reduce(d))
-        self._sqrt_cache[e] = res
+        # sqrt(p / D) = sqrt(p * D') / |D''|  with D' the keys of odd multiplicity
+        p = t.p
+        outer = self.one
+        for key, e in t.den.items():
+            if e % 2:
+                p = self.mul(p, key)
+            h = (e + 1) // 2
+            kt = T(self, key)
+            if h % 2:
+                kt = kt * self.sign(kt, "sign of a denominator pulled out of a square root")
+            outer = outer * (kt ** h).inv()
+        res = self._sqrt_poly(p) * outer
+        self._sqrt_cache[t] = res
         return res
 
     def _sqrt_poly(self, p):
-        p = sp.expand(p)
-        if p.is_number:
-            if p.is_negative:
-                raise Undecided(f"C19 [{self.name}]: square root of a negative number")
-            return sp.sqrt(p)
-        if any(s in self.rad for s in p.free_symbols):
-            raise Undecided(f"C19 [{self.name}]: nested radical {str(p)[:80]}")
-        coeff, facs = sp.sqf_list(p)
-        out = sp.Integer(1)
-        rad = sp.Integer(1)
+        from sympy.polys.rings import ring as mkring
+        from sympy.polys.domains import ZZ, QQ
+        if any(m[i] for m in p.keys() for i in self.rad):
+            raise Undecided(f"C19 [{self.name}]: nested radical")
+        c, prim = self.primitive(p)
+        sgn = self.sign(T(self, prim), "radicand")
+        if (c > 0) != (sgn > 0):
+            raise Undecided(f"C19 [{self.name}]: square root of a negative term")
+        if sgn < 0:
+            c, prim = -c, -prim
+        # rational content: c = (n/d) -> sqrt(n*d)/d with square factors pulled out
+        n, d = int(c.numerator), int(c.denominator)
+        out_c = sp.Rational(1, d)
+        nd = n * d
+        sq, rest = 1, 1
+        for f, m in sp.factorint(nd).items():
+            sq *= f ** (m // 2)
+            rest *= f ** (m % 2)
+        out_c = out_c * sq
+        # square-free decomposition of prim in a compact ring of its own generators (Musser, gcd with all partial derivatives)
+        used = [i for i in range(self.ring.ngens) if any(m[i] for m in prim.keys())]
+        facs = [(prim, 1)]
+        if used:
+            Rz, *gz = mkring([str(self.gens[i]) for i in used], ZZ)
+            pz = Rz.zero
+            for m, co in prim.terms():
+                pz = pz + Rz.term_new(tuple(m[i] for i in used), int(co))
+            G = pz
+            for x in gz:
+                dx = pz.diff(x)
+                if dx != 0:
+                    G = G.gcd(dx)
+                if G.is_ground:
+                    break
+            if not G.is_ground:
+                w = pz.exquo(G)
+                cc = G
+                facs_z, i = [], 1
+                while not w.is_ground:
+                    y = w.gcd(cc)
+                    z = w.exquo(y)
+                    if not z.is_ground:
+                        facs_z.append((z, i))
+                    w = y
+                    cc = cc.exquo(y)
+                    i += 1
+                    if i > 12:
+                        raise Undecided(f"C19 [{self.name}]: square-free decomposition did not terminate")
+
+                def back(q):
+                    r = self.ring.zero
+                    for m, co in q.terms():
+                        mm = [0] * self.ring.ngens
+                        for j, i_ in enumerate(used):
+                            mm[i_] = m[j]
+                        r = r + self.ring.term_new(tuple(mm), QQ(int(co)))
+                    return r
+                facs = [(back(z), m) for z, m in facs_z]
+                # constant left over (sign / content of the factors): compare leading coefficients
+                prod = self.one_p
+                for f, m in facs:
+                    prod = prod * f ** m
+                ratio = prim.LC / prod.LC
+                if prod * ratio != prim:
+                    raise Undecided(f"C19 [{self.name}]: square-free decomposition does not reproduce the radicand")
+                if ratio != 1:
+                    if ratio < 0:
+                        raise Undecided(f"C19 [{self.name}]: sign of a square-free factor")
+                    rn, rd = int(ratio.numerator), int(ratio.denominator)
+                    for f_, m_ in sp.factorint(rn * rd).items():
+                        out_c = out_c * f_ ** (m_ // 2)
+                        rest *= f_ ** (m_ % 2)
+                    out_c = out_c / rd
+                    # rest may now contain squares
+                    sq2 = 1
+                    for f_, m_ in sp.factorint(rest).items():
+                        sq2 *= f_ ** (m_ // 2)
+                    out_c, rest = out_c * sq2, rest // (sq2 * sq2)
+        outer = self.const(out_c)
+        rad = self.one_p
         for f, m in facs:
+            ft = T(self, f)
             if m // 2:
-                h = f ** (m // 2)
+                h = ft ** (m // 2)
                 if (m // 2) % 2:
-                    h = h * self.sign(f, "sign of a factor pulled out of a square root")
-                out *= h
+                    h = h * self.sign(ft, "sign of a factor pulled out of a square root")
+                outer = outer * h
             if m % 2:
-                rad *= f
-        if rad == 1:
-            if coeff.is_negative:
-                raise Undecided(f"C19 [{self.name}]: square root of a negative term")
-            return sp.sqrt(coeff) * out
-        rad = sp.expand(rad)
-        if self.sign(rad, "radicand") < 0:
-            rad, coeff = -rad, -coeff
-        if coeff.is_negative:
-            raise Undecided(f"C19 [{self.name}]: square root of a negative term {str(p)[:60]}")
-        return sp.sqrt(coeff) * out * self._norm_symbol(rad)
+                rad = rad * f
+        if rest != 1:
+            rad = rad * rest
+        if rad == self.one_p:
+            return outer
+        cr, radp = self.primitive(rad)
+        if cr != 1 or self.sign(T(self, radp), "radicand") < 0:
+            # the content was removed above; a negative square-free part cannot happen for a positive radicand with positive square factors
+            if self.sign(T(self, radp), "radicand") < 0:
+                raise Undecided(f"C19 [{self.name}]: negative square-free part of a radicand")
+            radp = rad
+        return outer * T(self, self._norm_symbol(radp))
 
 
 # ======================================================================================================
@@ -260,7 +727,7 @@ class Fam:
 
 def _S(v):
     """python / numpy number -> sympy number (exact)"""
-    if isinstance(v, sp.Basic):
+    if isinstance(v, (sp.Basic, T)):
         return v
     if isinstance(v, (bool, np.bool_)):
         return sp.Integer(int(v))
@@ -299,10 +766,13 @@ def conc(v):
     """-> python int / numpy integer array where the value is concrete (sympy Integers are unwrapped)"""
     if isinstance(v, sp.Integer):
         return int(v)
+    if isinstance(v, T) and v.is_number and v.number().is_Integer:
+        return int(v.number())
     if isinstance(v, np.ndarray) and v.dtype == object:
         flat = v.ravel()
-        if all(isinstance(x, (sp.Integer, int, np.integer)) and not isinstance(x, bool) for x in flat):
-            return np.array([int(x) for x in flat], dtype=np.int64).reshape(v.shape)
+        if all((isinstance(x, (sp.Integer, int, np.integer)) and not isinstance(x, bool)) or (isinstance(x, T) and x.is_number and x.number().is_Integer)
+               for x in flat):
+            return np.array([int(x.number()) if isinstance(x, T) else int(x) for x in flat], dtype=np.int64).reshape(v.shape)
         if all(x is sp.true or x is sp.false or isinstance(x, (bool, np.bool_)) for x in flat) and flat.size:
             return np.array([bool(x) for x in flat], dtype=bool).reshape(v.shape)
         raise Undecided("C19 evaluator: a symbolic array is used where concrete indices are needed")
@@ -342,9 +812,6 @@ class SpM:
         for i in range(D.shape[0]):
             for j in range(D.shape[1]):
                 x = D[i, j]
-                if isinstance(x, sp.Basic):
-                    x = sp.expand(x)
-                    D[i, j] = x
                 nz[i, j] = bool(x != 0)
         r, c = np.nonzero(nz)
         vals = D[r, c]
@@ -517,6 +984,8 @@ class GridObj:
 
 IGNORED_CALLS = {"warnings.warn", "logging.getLogger", "print"}
 PRIMITIVE_PP = {"rldecode": "repeat", "sparse_array_to_row_col_data": "find"}
+import os as _os
+_TRACE = bool(_os.environ.get("C19_TRACE"))
 MAX_STEPS = 20000
 MAX_DEPTH = 12
 
@@ -579,6 +1048,15 @@ class Ev:
 
     # ---------------------------------------------------------------- statements
     def run_body(self, body):
+        if _TRACE:
+            import time
+            for st in body:
+                t0 = time.time()
+                self.exec(st)
+                dt = time.time() - t0
+                if dt > 0.05:
+                    print(f"  [trace] {self.qual}:{getattr(st, 'lineno', '?')} {dt:.2f}s  {u(st)[:70]!r}", flush=True)
+            return
         for st in body:
             self.exec(st)
 
@@ -597,7 +1075,7 @@ class Ev:
             self.scope.vars[st.name] = Closure(st, self.scope, self.modrel, f"{self.qual}.{st.name}")
             return
         if isinstance(st, ast.Assign):
-            val = self.ev(st.value)
+            val = self.fam.tidy(self.ev(st.value))
             for tg in st.targets:
                 self.store(tg, val)
             return
@@ -663,6 +1141,8 @@ class Ev:
             return False
         if isinstance(v, (int, np.integer)):
             return bool(v)
+        if isinstance(v, T):
+            return self.fam.sign(v, u(node)[:60]) != 0 if v.p != 0 else False
         if isinstance(v, sp.Basic):
             if v is sp.true:
                 return True
@@ -884,7 +1364,7 @@ class Ev:
             if a == "A":
                 return np.asarray(base)
             return _Bound(base, a)
-        if isinstance(base, (list, tuple, dict, sp.Basic, int)):
+        if isinstance(base, (list, tuple, dict, sp.Basic, int, T)):
             return _Bound(base, a)
         raise self.und(f"attribute `{u(e)[:50]}`", e)
 
@@ -1202,7 +1682,7 @@ class Ev:
             if name in table:
                 return self.library(table[name], [base] + list(args), kw, node)
             raise self.und(f"array method `{name}`", node)
-        if isinstance(base, sp.Basic) and name in ("item",):
+        if isinstance(base, (sp.Basic, T)) and name in ("item",):
             return base
         raise self.und(f"method `{name}` on {type(base).__name__}", node)
 
@@ -1994,7 +2474,11 @@ class Instance:
         cind = np.array([f for c in self.cells for f in c], dtype=np.int64)
         cdat = np.array([s for c in self.cell_signs for s in c], dtype=np.int64)
         cell_faces = SpM((nf, nc), "csc", cptr, cind, cdat)
-        attrs = dict(dim=self.dim, nodes=self.nodes.copy(), face_nodes=face_nodes, cell_faces=cell_faces, num_nodes=nn, num_faces=nf,
+        fam = self.fam
+        tnodes = np.empty(self.nodes.shape, dtype=object)
+        for ix in np.ndindex(*self.nodes.shape):
+            tnodes[ix] = fam.from_expr(self.nodes[ix])
+        attrs = dict(dim=self.dim, nodes=tnodes, face_nodes=face_nodes, cell_faces=cell_faces, num_nodes=nn, num_faces=nf,
                      num_cells=nc, history=[], name="instance", tags={}, periodic_face_map=np.zeros((2, 0), dtype=np.int64))
         return GridObj(attrs)
 
@@ -2044,34 +2528,40 @@ def _plane_nodes(ab, o, p, q):
 
 
 def plane_instance(oriented: bool = True, mirrored: bool = False, patchy: bool = False) -> Instance:
-    """a convex quadrilateral and a triangle sharing an edge, in the plane z = o + p x + q y"""
-    a = sp.symbols("a0:5", real=True)
-    b = sp.symbols("b0:5", real=True)
+    """a convex quadrilateral and a triangle sharing an edge, in the plane z = o + p x + q y; `patchy` adds a disconnected triangle
+    whose node loop runs the other way round (locally consistent, globally not: orientation check 3/3 of the 2-d kernel)"""
+    nn = 8 if patchy else 5
+    a = sp.symbols(f"a0:{nn}", real=True)
+    b = sp.symbols(f"b0:{nn}", real=True)
     o, p, q = sp.symbols("o p q", real=True)
     syms = list(a) + list(b) + [o, p, q]
     nodes = _plane_nodes(list(zip(a, b)), o, p, q)
-    basea = ["0", "2", "11/5", "-1/10", "7/2"]
-    baseb = ["0", "1/10", "3/2", "6/5", "3/5"]
+    basea = ["0", "2", "11/5", "-1/10", "7/2"] + (["5", "6", "11/2"] if patchy else [])
+    baseb = ["0", "1/10", "3/2", "6/5", "3/5"] + (["0", "1/5", "1"] if patchy else [])
     if mirrored:
         basea = [("-" + v).replace("--", "") for v in basea]
     base = basea + baseb + ["1/2", "2/3", "-3/4"]
-    deltas = [["1/20", "-1/15", "1/12", "1/18", "-1/14", "1/16", "1/22", "-1/17", "1/19", "1/13", "1/9", "-1/7", "1/8"],
-              ["-1/25", "1/21", "-1/16", "1/15", "1/12", "-1/18", "1/14", "1/20", "-1/13", "-1/17", "-1/5", "1/6", "1/9"]]
+    da = ["1/20", "-1/15", "1/12", "1/18", "-1/14", "1/17", "-1/19", "1/23"][:nn]
+    db = ["1/16", "1/22", "-1/17", "1/19", "1/13", "-1/21", "1/15", "1/25"][:nn]
+    da2 = ["-1/25", "1/21", "-1/16", "1/15", "1/12", "-1/13", "1/24", "-1/18"][:nn]
+    db2 = ["-1/18", "1/14", "1/20", "-1/13", "-1/17", "1/19", "-1/22", "1/16"][:nn]
+    deltas = [da + db + ["1/9", "-1/7", "1/8"], da2 + db2 + ["-1/5", "1/6", "1/9"]]
     name = "plane" + ("" if oriented else "-unoriented") + ("-mirrored" if mirrored else "") + ("-patchy" if patchy else "")
     fam = Fam(name.replace("-", "_"), syms, _placements(syms, base, deltas))
     loops = [[0, 1], [1, 2], [2, 3], [3, 0], [1, 4], [4, 2]]
     cells = [[0, 1, 2, 3], [1, 4, 5]]
     signs = [[1, 1, 1, 1], [-1, 1, 1]]
+    note = "quadrilateral (n0..n3) and triangle (n1,n4,n2) in a general plane"
     if not oriented:
         loops[1] = [2, 1]
         loops[4] = [4, 1]
+        note += "; two faces list their nodes against the cell loops"
     if patchy:
-        # every cell is a closed node loop, but the second cell runs the other way round (orientation check 3/3)
-        loops[4], loops[5] = [4, 1], [2, 4]
-        loops[1] = [1, 2]
-        cells = [[0, 1, 2, 3], [1, 4, 5]]
-        signs = [[1, 1, 1, 1], [-1, 1, 1]]
-    return Instance(name, 2, fam, nodes, loops, cells, signs, "quadrilateral (n0..n3) and triangle (n1,n4,n2) in a general plane")
+        loops += [[5, 7], [7, 6], [6, 5]]
+        cells += [[6, 7, 8]]
+        signs += [[1, 1, 1]]
+        note += "; plus a disconnected triangle (n5,n6,n7) whose loop runs clockwise"
+    return Instance(name, 2, fam, nodes, loops, cells, signs, note)
 
 
 def _right_hand_sign(pts, loop, cell_nodes) -> int:
@@ -2085,15 +2575,14 @@ def _right_hand_sign(pts, loop, cell_nodes) -> int:
 
 
 def solid_instance() -> Instance:
-    """a pyramid over a planar quadrilateral (in z = 0) and a tetrahedron glued to one of its triangular faces"""
-    a = sp.symbols("a0:4", real=True)
-    b = sp.symbols("b0:4", real=True)
+    """a pyramid over a (fixed, unsymmetric) planar quadrilateral in z = 0 with a symbolic apex, and a tetrahedron with a symbolic
+    fourth node glued to one of its triangular faces"""
     x4, y4, z4, x5, y5, z5 = sp.symbols("x4 y4 z4 x5 y5 z5", real=True)
-    syms = list(a) + list(b) + [x4, y4, z4, x5, y5, z5]
-    nodes = _arr([[a[0], a[1], a[2], a[3], x4, x5], [b[0], b[1], b[2], b[3], y4, y5], [0, 0, 0, 0, z4, z5]])
-    base = ["0", "2", "11/5", "-1/10", "0", "1/10", "3/2", "6/5", "1", "7/10", "9/5", "17/5", "9/10", "7/10"]
-    deltas = [["1/20", "-1/15", "1/12", "1/18", "-1/14", "1/16", "1/22", "-1/17", "1/19", "1/13", "1/9", "-1/7", "1/8", "1/11"],
-              ["-1/25", "1/21", "-1/16", "1/15", "1/12", "-1/18", "1/14", "1/20", "-1/13", "-1/17", "-1/5", "1/6", "1/9", "-1/10"]]
+    syms = [x4, y4, z4, x5, y5, z5]
+    bx, by = [R(0), R(2), R(11, 5), R(-1, 10)], [R(0), R(1, 10), R(3, 2), R(6, 5)]
+    nodes = _arr([bx + [x4, x5], by + [y4, y5], [0, 0, 0, 0, z4, z5]])
+    base = ["1", "7/10", "9/5", "17/5", "9/10", "7/10"]
+    deltas = [["1/9", "-1/7", "1/8", "1/11", "1/13", "-1/9"], ["-1/5", "1/6", "1/9", "-1/10", "-1/12", "1/7"]]
     fam = Fam("solid", syms, _placements(syms, base, deltas))
     loops = [[0, 1, 2, 3], [0, 1, 4], [1, 2, 4], [2, 3, 4], [3, 0, 4], [1, 5, 2], [2, 5, 4], [4, 5, 1]]
     cells = [[0, 1, 2, 3, 4], [2, 5, 6, 7]]
@@ -2139,3 +2628,171 @@ def run_kernel(repo, inst: Instance, entry: str = "compute_geometry", nodes=None
         raise Undecided(f"C19 [{inst.name}]: evaluator could not interpret the kernel ({type(err).__name__}: {str(err)[:120]})")
     out.grid = g
     return out
+
+
+# ======================================================================================================
+#  the identities of the property, posed on the outcome of a kernel
+# ======================================================================================================
+
+KERNEL = {1: "Grid._compute_geometry_1d", 2: "Grid._compute_geometry_2d", 3: "Grid._compute_geometry_3d"}
+
+
+def _vec(arr, j):
+    return [arr[i, j] for i in range(3)]
+
+
+def _dot(a, b):
+    return a[0] * b[0] + a[1] * b[1] + a[2] * b[2]
+
+
+def _sub(a, b):
+    return [a[i] - b[i] for i in range(3)]
+
+
+def _cross(a, b):
+    return [a[1] * b[2] - a[2] * b[1], a[2] * b[0] - a[0] * b[2], a[0] * b[1] - a[1] * b[0]]
+
+
+def outputs(inst: Instance, g: GridObj):
+    """the five observed arrays, shape-checked; returns (dict, problem)"""
+    nf, nc = len(inst.face_loops), len(inst.cells)
+    want = {"face_areas": (nf,), "face_centers": (3, nf), "face_normals": (3, nf), "cell_volumes": (nc,), "cell_centers": (3, nc)}
+    res = {}
+    for k, shp in want.items():
+        v = g.attrs.get(k)
+        if not isinstance(v, np.ndarray) or isinstance(v, Mat) or tuple(v.shape) != shp:
+            return None, f"after compute_geometry `{k}` has shape {getattr(v, 'shape', type(v).__name__)}, expected {shp}"
+        res[k] = obj(v)
+    return res, None
+
+
+def measure_sq(inst: Instance, nodes, loop):
+    """squared measure of a point / segment / triangle / planar quadrilateral given by its node loop (None: no oracle)"""
+    P = [_vec(nodes, n) for n in loop]
+    if len(loop) == 1:
+        return 1
+    if len(loop) == 2:
+        d = _sub(P[1], P[0])
+        return _dot(d, d)
+    if len(loop) == 3:
+        c = _cross(_sub(P[1], P[0]), _sub(P[2], P[0]))
+        return _dot(c, c) / 4
+    if len(loop) == 4:
+        c = _cross(_sub(P[2], P[0]), _sub(P[3], P[1]))
+        return _dot(c, c) / 4
+    return None
+
+
+def check_instance(ctx: Ctx, inst: Instance, out: Outcome, fn_node, prefix: str = "") -> bool:
+    fam = inst.fam
+    q = KERNEL[inst.dim]
+    tag = f"{prefix}[{inst.name}]"
+    if out.fault is not None:
+        kind = "raises" if isinstance(out.fault, KernelRaises) else "combines arrays of different index spaces"
+        ctx.check("R6", False, GRID, q, out.fault.node or fn_node,
+                  f"on the valid instance {inst.name} ({inst.note}) the geometry computation {kind}: {out.fault.what}",
+                  construct=f"{tag} compute_geometry runs through", facts={"fault": out.fault.what})
+        return False
+    res, problem = outputs(inst, out.grid)
+    if problem:
+        ctx.check("R6", False, GRID, q, fn_node, f"instance {inst.name}: {problem}", construct=f"{tag} compute_geometry runs through")
+        return False
+    ctx.check("R6", True, GRID, q, fn_node, f"instance {inst.name} ({inst.note}): compute_geometry runs through, result arrays have the face/cell shapes",
+              construct=f"{tag} compute_geometry runs through")
+    A, xf, nf_, V, xc = res["face_areas"], res["face_centers"], res["face_normals"], res["cell_volumes"], res["cell_centers"]
+    nodes = out.grid.attrs["nodes"]
+    dim = inst.dim
+
+    def zero(rule, expr, node_desc, what):
+        z = fam.iszero(expr)
+        facts = None if z else fam.witness(expr)
+        ctx.check(rule, bool(z), GRID, q, fn_node, what + ("" if z else f"; residual {facts['residual']:.4g} for the node coordinates {facts['placement']}"),
+                  construct=f"{tag} {node_desc}", facts=facts)
+        return bool(z)
+
+    # R2: |n_f| = area_f = measure of the face
+    for f, loop in enumerate(inst.face_loops):
+        n = _vec(nf_, f)
+        zero("R2", _dot(n, n) - A[f] * A[f], f"face {f}: |normal| == area", f"face {f}: the normal vector must have the length of the face area")
+        m2 = measure_sq(inst, nodes, loop)
+        if m2 is not None:
+            zero("R2", A[f] * A[f] - m2, f"face {f}: area == measure", f"face {f}: face_areas must be the measure of the face spanned by nodes {loop}")
+    for c, (fs, ss) in enumerate(zip(inst.cells, inst.cell_signs)):
+        cn = sorted({n for f in fs for n in inst.face_loops[f]})
+        p = _vec(nodes, cn[0])
+        # R1 closure
+        tot = [0, 0, 0]
+        for f, s in zip(fs, ss):
+            n = _vec(nf_, f)
+            tot = [tot[i] + s * n[i] for i in range(3)]
+        ok = all(fam.iszero(t) for t in tot)
+        wit = None if ok else fam.witness(next(t for t in tot if not fam.iszero(t)))
+        ctx.check("R1", ok, GRID, q, fn_node, f"cell {c}: the signed sum of the face normals must vanish"
+                  + ("" if ok else f"; residual {wit['residual']:.4g} for the node coordinates {wit['placement']}"),
+                  construct=f"{tag} cell {c}: closure", facts=wit)
+        # R3 outward
+        for f, s in zip(fs, ss):
+            e = _dot(_sub(_vec(xf, f), _vec(xc, c)), _vec(nf_, f)) * s
+            sg = fam.sign(e, f"outward test of face {f} in cell {c}")
+            ctx.check("R3", sg > 0, GRID, q, fn_node, f"cell {c}, face {f} (cell_faces sign {s:+d}): sign * normal must point from the cell centre towards "
+                      f"the face centre" + ("" if sg > 0 else f"; (x_f - x_c).(sign n_f) = {fam.nums(e)[0]:.4g} at the placement {fam.witness(e)['placement']}"),
+                      construct=f"{tag} cell {c}, face {f}: outward")
+        # R4 divergence identity and positivity, simplex measure
+        div = 0
+        for f, s in zip(fs, ss):
+            div = div + s * _dot(_sub(_vec(xf, f), p), _vec(nf_, f))
+        zero("R4", div - dim * V[c], f"cell {c}: divergence identity", f"cell {c}: sum_f sign (x_f - p).n_f must equal {dim} * cell volume")
+        sg = fam.sign(V[c], f"volume of cell {c}")
+        ctx.check("R4", sg > 0, GRID, q, fn_node, f"cell {c}: the volume must be positive on the valid instance", construct=f"{tag} cell {c}: positive volume")
+        if len(cn) == dim + 1:
+            P = [_vec(nodes, n) for n in cn]
+            if dim == 1:
+                d = _sub(P[1], P[0])
+                m2 = _dot(d, d)
+            elif dim == 2:
+                cr = _cross(_sub(P[1], P[0]), _sub(P[2], P[0]))
+                m2 = _dot(cr, cr) / 4
+            else:
+                det = _dot(_sub(P[1], P[0]), _cross(_sub(P[2], P[0]), _sub(P[3], P[0])))
+                m2 = det * det / 36
+            zero("R4", V[c] * V[c] - m2, f"cell {c}: simplex measure", f"cell {c} is a simplex: its volume must be the simplex measure")
+        # R5 centroid identity
+        acc = [0, 0, 0]
+        for f, s in zip(fs, ss):
+            r = _sub(_vec(xf, f), p)
+            w = s * _dot(r, _vec(nf_, f))
+            acc = [acc[i] + w * r[i] for i in range(3)]
+        rhs = [(dim + 1) * V[c] * (xc[i, c] - p[i]) for i in range(3)]
+        resid = [acc[i] - rhs[i] for i in range(3)]
+        ok = all(fam.iszero(t) for t in resid)
+        wit = None if ok else fam.witness(next(t for t in resid if not fam.iszero(t)))
+        ctx.check("R5", ok, GRID, q, fn_node, f"cell {c}: sum_f sign ((x_f - p).n_f) (x_f - p) must equal {dim + 1} * volume * (cell centre - p)"
+                  + ("" if ok else f"; residual {wit['residual']:.4g} for the node coordinates {wit['placement']}"),
+                  construct=f"{tag} cell {c}: centroid identity", facts=wit)
+    return True
+
+
+def instances(tier: str) -> list[Instance]:
+    out = [line_instance(), plane_instance(), plane_instance(oriented=False), solid_instance()]
+    if tier == "thorough":
+        out += [plane_instance(mirrored=True), plane_instance(patchy=True)]
+    return out
+
+
+def run(ctx: Ctx) -> None:
+    mod = ctx.repo.module(GRID)
+    cls = mod.cls("Grid")
+    ms = methods(cls)
+    for name in ("compute_geometry",):
+        if name not in ms:
+            raise AnchorError(f"{GRID}:Grid.{name} not found")
+    ctx.repo.module(MAPG)
+    for inst in instances(ctx.tier):
+        out = run_kernel(ctx.repo, inst)
+        fn = ms.get(KERNEL[inst.dim].split(".")[1]) or ms["compute_geometry"]
+        check_instance(ctx, inst, out, fn)
+        ctx.sample({"instance": inst.name, "note": inst.note, "symbols": [str(s) for s in inst.fam.symbols],
+                    "square_roots": len(inst.fam.rad), "placements": len(inst.fam.place)})
+
+
+MUTANTS: list = []
